@@ -2941,7 +2941,7 @@ class FuncParseDate(ValueFunc):
                 idx = fmt.find(part)
                 if idx == -1:
                     continue
-                if not s[idx:idx+len(part)].isdigit():
+                if not s[idx:idx+len(part)].isdecimal():
                     s = None
                     break
                 vals[part] = int(s[idx:idx+len(part)])
